@@ -151,6 +151,20 @@ def main(argv=None):
     known_sigs = sorted({x for f in known for x in (f.get("signatures") or [f.get("signature")])})
     base_spec = dict(entry.get("spec", {}), property=prop, seed=seed, tier=tier, known_signatures=known_sigs)
     agg = explore(entry["fn"], base_spec, budget, max_runs, batch=entry.get("batch", 1))
+    # a run that merely ran out of wall time (no frozen callback: that would be a hang violation) says nothing yet: it is
+    # repeated once on its own with four times the allowance before it counts as a harness error
+    from .runner import WALL_TIMEOUT
+    for h in list(agg.harness_errors):
+        if h.get("verdict") != "wall_timeout" or h.get("run") is None:
+            continue
+        res = fork_run(entry["fn"], dict(base_spec, run=h["run"]), wall_timeout=WALL_TIMEOUT * 4)
+        print("  run %s ran out of wall time (%.0fs); repeated alone: %s" % (h["run"], WALL_TIMEOUT, res.get("verdict")), flush=True)
+        if res.get("verdict") in ("ok", "violation"):
+            agg.harness_errors.remove(h)
+            agg.harness_error_count -= 1
+            agg.timeouts -= 1
+            agg.runs -= 1
+            agg.add(h["run"], res)
 
     extra_cov = {}
     if entry.get("post"):
